@@ -364,6 +364,9 @@ class Interp:
         self._busy.add(key)
         saved_try = self._try_stack
         self._try_stack = []
+        # summaries are always inline-free, whoever asks for them
+        saved_inline = (self.inline, self.max_depth)
+        self.inline, self.max_depth = None, 0
         try:
             assume = self.assume_for(callee, which) if which else None
             hole = self._default_hole if callee.fn.kind == 'ctxgen' else None
@@ -374,6 +377,7 @@ class Interp:
         finally:
             self._busy.discard(key)
             self._try_stack = saved_try
+            self.inline, self.max_depth = saved_inline
         self._summaries[key] = summ
         return summ
 
